@@ -354,6 +354,13 @@ func siteObligations(p *core.Prover, in ssa.Instruction) []obligation {
 		if x.Max != nil {
 			add(e.Of(x.Max).Sub(hi), "slice-high<=max", "high <= max")
 		}
+	case *ssa.MakeSlice:
+		add(e.Of(x.Len), "make-len>=0", "make length "+core.Expr(x.Len)+" >= 0")
+		if x.Cap != x.Len {
+			add(e.Of(x.Cap).Sub(e.Of(x.Len)), "make-len<=cap", "make length <= capacity")
+		}
+	case *ssa.MakeChan:
+		add(e.Of(x.Size), "makechan-size>=0", "channel size "+core.Expr(x.Size)+" >= 0")
 	case *ssa.SliceToArrayPointer:
 		if n, ok := arrayLenOfType(x.Type()); ok {
 			add(e.LenOf(x.X).AddC(-n), "slice->array", fmt.Sprintf("len(%s) >= %d", core.Expr(x.X), n))
@@ -395,8 +402,11 @@ func libObligations(p *core.Prover, call ssa.CallInstruction) []obligation {
 		}
 	}
 	switch n {
-	case "builtin.make":
+	case core.M("internal/pool.GetBuf"), "github.com/IrineSistiana/bytespool.Get":
+		// bytespool.Get(n) returns an empty slice for n <= 0: the model len(GetBuf(n)) = n needs n >= 0
+		out = append(out, obligation{call, e.Of(args[0]), "GetBuf size " + core.Expr(args[0]) + " >= 0", "lib-pre"})
 	case "unsafe.Slice", "unsafe.String":
+		out = append(out, obligation{call, e.Of(args[1]), n + " length " + core.Expr(args[1]) + " >= 0", "lib-pre"})
 	}
 	return out
 }
